@@ -18,14 +18,16 @@ MANIFEST = dict(
          "what it moved and left a prefix in the destination (c17_fault_safe) - it MAY drop bytes the destination "
          "held in MEM chunks before the call (c17_fault_drops_queued_bytes is the witness; the error is surfaced); "
          "descriptors and temp-file names are conserved and none remain after reset (c17_resources_conserved, "
-         "c17_reset_releases, c17_reset_releases_all); schedules of ok / short writes / EINTR only (no mkostemp "
-         "failure, an upload dir left, no read-only temp chunk) never make append_mem_to_tempfile or "
-         "steal_with_tempfiles report an error - so the retry loops' iteration bounds suffice there - and the "
-         "transfer is then an exact FIFO move (c17_retryable_never_fails, c17_retryable_fifo). NOT PROVED, "
-         "correspondence-tested only: that ENOSPC falls back to the next upload dir before failing, and that the "
-         "iteration bounds of the model's retry loops are never the reason for a reported error under schedules "
-         "containing ENOSPC/EIO (the model's return codes are compared with the C at every fault position of 40/600 "
-         "spill sequences; an exhausted bound would show as sw:-1/mt:-1 against the C's 0). Model tied "
+         "c17_reset_releases, c17_reset_releases_all); schedules of ok / short writes / EINTR / ENOSPC with more "
+         "upload dirs left than ENOSPC results to come (no EIO, no mkostemp failure, no read-only temp chunk) never "
+         "make append_mem_to_tempfile or steal_with_tempfiles report an error - short writes are continued, EINTR "
+         "retried, ENOSPC falls back to the next dir, the retry loops' iteration bounds suffice - and the transfer "
+         "is then an exact FIFO move (c17_retryable_never_fails, c17_retryable_fifo); under every schedule the "
+         "iteration bounds of the model's retry loops are never reached, so no reported error is an artefact of the "
+         "bound (c17_fuel_sufficient). NOT PROVED: that a failed spill keeps the bytes the destination held outside "
+         "MEM chunks (only the prefix property is proved); which errno the C maps to which model fault and the "
+         "return codes under EIO / mkostemp failures / more ENOSPC than dirs are fixed by the model and compared "
+         "with the C at every fault position of 40/600 spill sequences (correspondence). Model tied "
          "to the C by differential op-sequence runs of the real chunk.c under ASan/UBSan with interposed "
          "pwritev/pwrite/mkostemp plus an independent byte-string oracle (content, counters, readability of every "
          "queued byte, temp files on disk, open descriptors after every operation)",
